@@ -1,7 +1,7 @@
 """C11 — completion offers exactly the visible names (DESIGN §4 C11).
 
 theorems : lean/GoldModel/Props/C11.lean (complete_dot, complete_plain, dangling_parse,
-           dangling_resolves, complete_case; tables through Props/C18.lean `collect_wf`)
+           dangling_resolves, dot_node_resolves, complete_case; tables through Props/C18.lean `collect_wf`)
 tie      : correspondence `scope` — real ProjectManager::generate_completion_proposals over the
            materialised workspace vs the model, every dot position (complete, partial, dangling)
            and every statement start of every method
@@ -41,7 +41,8 @@ def run(ctx):
     ctx.assumptions += [
         "WellFormedWs (Lemmas/Scope.lean) as for C10; cross-kind name clashes along a chain (a constant named like an ancestor's field) are outside the generator's domain: the specification lets the nearest declaration of a name win and then keeps it if it is a member",
         "dangling_parse / dangling_resolves are about the memo-free interpreter `runP`; that the memoising parser returns the same tree is C07's theorem and the `parse` correspondence",
-        "the statement that directly follows a dangling `x.` lies, for the parser, inside the dot expression's empty operand (its range reaches the end of the token at which the operand search stopped): no statement-start position is queried there",
+        "the KEYWORD statement that directly follows a dangling `x.` lies, for the parser, inside the dot expression's empty operand (its range reaches the end of the token at which the operand search stopped): no statement-start position is queried there",
+        "line ends separate nothing: an identifier-initial line after a dangling `x.` continues the chain (`x.⏎name` is `x.name`); positions between that dot and the name (right behind the dot, on an empty line in between, at the start of the name) are positions after the dot and must offer the members of x's class",
         "one manager per queried file (see C10)",
     ]
     ctx.extract(["E8_ScopeConsts"])      # native keys, intrinsics, completion filters: the model consumes them
@@ -101,8 +102,9 @@ def run(ctx):
 
 
 RULE = ("cases = corpus/C11 witnesses + generated workspaces (as C10) x every position right after a dot of every chain (complete member name, partial "
-        "name with the cursor anywhere in it, dangling dot at the end of a body and in its middle) and every statement start (first column of every "
-        "statement, empty lines); one evaluation = one completion request on the real ProjectManager, labels sorted with duplicates kept, compared with "
+        "name with the cursor anywhere in it, dangling dot at the end of a body and in its middle followed by exit / an if block / an assignment / a call / a chain, "
+        "possibly after an empty line) and every statement start (first column of every statement, empty lines; also in methods that follow body-less "
+        "external / forward methods with parameters); one evaluation = one completion request on the real ProjectManager, labels sorted with duplicates kept, compared with "
         "the model and with the generator's visibility set; distinct_nontrivial = number of distinct non-empty implementation answers")
 
 
